@@ -119,13 +119,17 @@ def _paths_from_replay(replay_file, pf):
     return tr.get("part", "store")
 
 
-def _judge(props_mod, names, observed, chunk=1500):
+def _judge(props_mod, names, observed, probe=300, chunk=4000):
     """family.judge in chunks.  ObsCheck keeps every violation it has seen in one TLC
-    variable, so a tree on which most traces violate would make a single run quadratic;
-    once enough new violations are in hand to report, the rest is not judged."""
+    variable, so a tree on which most traces violate makes a single big run quadratic (and
+    memory hungry).  A small probe chunk is judged first; once enough new violations are
+    in hand to report, the rest is not judged."""
     out = {"violations": [], "known": {}, "n_lines": 0, "wall": 0.0, "raw": 0, "judged_traces": 0}
-    for k in range(0, len(observed), chunk):
-        part = observed[k:k + chunk]
+    k = 0
+    while k < len(observed):
+        n = probe if k == 0 else chunk
+        part = observed[k:k + n]
+        k += n
         v = family.judge([SPEC], props_mod, names, "C13", part, label=label)
         out["violations"] += v["violations"]
         for kid, kv in v["known"].items():
@@ -291,7 +295,11 @@ def run(prop_id, tier, seed, replay=None):
                                                 env={"VERIF_SOON": "1"}))
                 plan.append(lambda: _store_part("store-timed", TIMED_CONFIG, tier, seed, rng, sc, store_bin,
                                                 max_len=24, env={"VERIF_PAR": "48", "VERIF_SOON": "0"}))
-            for step in plan:
+            only = os.environ.get("VERIF_C13_PARTS")      # self-test aid: run a subset of the parts
+            names = ["store", "enforce"] + (["store-wide", "store-timed"] if thorough else [])
+            for nm, step in zip(names, plan):
+                if only and nm not in only.split(","):
+                    continue
                 parts.append(step())
                 if parts[-1].verdict["violations"]:
                     break
